@@ -1611,3 +1611,223 @@ Proof.
   unfold obj_st. rewrite G3. assert (Nat.eqb i o = false) by (apply Nat.eqb_neq; unfold o; lia). rewrite H. reflexivity.
 Qed.
 End WithSchema7.
+
+(* ---------------------------------------------------------------- assignments *)
+
+Lemma Pk_key_set : forall sch s o e a nv,
+  Pk sch s -> attr_uniq sch e a = true -> key_conflict s o e a nv = false -> Pk sch (key_set s o e a nv).
+Proof.
+  intros sch s o e a nv P U NC. unfold key_set. destruct (get_obj s o) as [ob|] eqn:G; [|exact P].
+  destruct (is_del (o_st ob) || negb (Nat.eqb (o_ent ob) e)) eqn:GU. exact P.
+  apply orb_false_iff in GU. destruct GU as [ND EE]. apply negb_false_iff in EE. apply Nat.eqb_eq in EE.
+  destruct (oval_eqb (oval ob a) (Some nv)) eqn:SAME. exact P.
+  set (s2 := if is_vnone nv then s else idx_put s e (S a) nv o).
+  set (s3 := match oval ob a with Some ov => if is_vnone ov then s2 else idx_del s2 e (S a) ov | None => s2 end).
+  destruct P as [D|[I SH]].
+  { left. rewrite upd_obj_dirty. unfold s3, s2. destruct (oval ob a) as [ov|]; try destruct (is_vnone ov); destruct (is_vnone nv); exact D. }
+  right.
+  assert (LT : (a < length (o_vals ob))%nat).
+  { rewrite (SH o ob G). rewrite EE. apply Nat.ltb_lt. apply attr_uniq_lt. exact U. }
+  assert (G3 : forall o', get_obj s3 o' = get_obj s o').
+  { intros. unfold s3, s2. destruct (oval ob a) as [ov|]; try destruct (is_vnone ov); destruct (is_vnone nv); reflexivity. }
+  set (ob' := ob_put_val ob a (Some nv)).
+  assert (KN : kview sch ob' (S a) = if is_vnone nv then None else Some nv).
+  { unfold kview, ob'. cbn [o_ent o_st ob_put_val ob_set_vals]. rewrite EE. simpl. rewrite U, ND. simpl.
+    fold (ob_set_vals ob (upd_nth (o_vals ob) a (Some nv))). fold (ob_put_val ob a (Some nv)). rewrite oval_put_same by exact LT. reflexivity. }
+  assert (KO : kview sch ob (S a) = match oval ob a with Some v => if is_vnone v then None else Some v | None => None end).
+  { unfold kview. rewrite EE. simpl. rewrite U, ND. reflexivity. }
+  split.
+  - eapply (Inv_rekey_slot sch s _ o ob ob' (S a) I G).
+    + rewrite get_upd_obj_same, G3, G. reflexivity.
+    + reflexivity.
+    + intros o' N. rewrite get_upd_obj_other by auto. apply G3.
+    + intros k N. apply kview_put_val_other. exact N.
+    + intros e' k v. rewrite idx_get_upd_obj. rewrite KN, KO, EE.
+      assert (X : idx_get s3 e' k v =
+                  if Nat.eqb e' e && Nat.eqb k (S a) && match oval ob a with Some ov => negb (is_vnone ov) && val_eqb v ov | None => false end then None
+                  else if Nat.eqb e' e && Nat.eqb k (S a) && negb (is_vnone nv) && val_eqb v nv then Some o else idx_get s e' k v).
+      { unfold s3, s2. destruct (oval ob a) as [ov|].
+        - destruct (is_vnone ov) eqn:NO; simpl.
+          + rewrite andb_false_r. destruct (is_vnone nv); simpl. rewrite !andb_false_r. reflexivity.
+            rewrite idx_put_char. rewrite andb_true_r. reflexivity.
+          + rewrite idx_del_char. destruct (is_vnone nv); simpl.
+            * rewrite !andb_false_r. reflexivity.
+            * rewrite idx_put_char. rewrite !andb_true_r. reflexivity.
+        - rewrite andb_false_r. destruct (is_vnone nv); simpl. rewrite !andb_false_r. reflexivity.
+          rewrite idx_put_char. rewrite andb_true_r. reflexivity. }
+      rewrite X. destruct (Nat.eqb e' e); simpl; auto. destruct (Nat.eqb k (S a)); simpl; auto.
+      destruct (is_vnone nv) eqn:NN; simpl.
+      * destruct (oval ob a) as [ov|]; simpl; auto. destruct (is_vnone ov) eqn:NO; simpl; auto.
+        rewrite (val_eqb_sym v ov). reflexivity.
+      * rewrite (val_eqb_sym v nv). destruct (val_eqb nv v) eqn:EV.
+        -- apply val_eqb_eq in EV. subst v. destruct (oval ob a) as [ov|] eqn:OV; simpl; auto.
+           destruct (is_vnone ov) eqn:NO; simpl; auto. destruct (val_eqb nv ov) eqn:E2; auto.
+           apply val_eqb_eq in E2. subst ov. simpl in SAME. rewrite val_eqb_refl in SAME. discriminate.
+        -- destruct (oval ob a) as [ov|]; simpl; auto. destruct (is_vnone ov); simpl; auto. rewrite (val_eqb_sym v ov). reflexivity.
+    + intros v H1 H2. rewrite KN in H1. destruct (is_vnone nv) eqn:NN; try discriminate. inversion H1; subst v.
+      rewrite EE. unfold key_conflict in NC. rewrite (obj_val_get s o ob a G) in NC. rewrite NN in NC. simpl in NC.
+      destruct (idx_get s e (S a) nv) as [o2|] eqn:IX; auto.
+      assert (VN : negb (val_eqb (match oval ob a with Some ov => ov | None => VNone end) nv) = true).
+      { destruct (oval ob a) as [ov|]; simpl in *. rewrite SAME. reflexivity. destruct nv; simpl in *; auto; discriminate. }
+      rewrite VN in NC. simpl in NC. apply negb_false_iff in NC. apply Nat.eqb_eq in NC. subst o2.
+      exfalso. apply (I e (S a) nv o) in IX. destruct IX as (b & Hb & _ & Hk). rewrite G in Hb. inversion Hb; subst b. contradiction.
+  - apply shape_upd_obj. 2:{ intros ob2. split. reflexivity. unfold ob_put_val, ob_set_vals. cbn [o_vals]. apply upd_nth_length. }
+    intros o' obx Hx. rewrite G3 in Hx. apply (SH o' obx Hx).
+Qed.
+
+Section WithSchema8.
+Variable sch : schema.
+Hypothesis WF : wf_schema sch = true.
+
+Lemma attr_uniq_get : forall e a at_, get_attr sch e a = Some at_ -> attr_uniq sch e a = a_uniq at_.
+Proof. intros. unfold attr_uniq. rewrite H. reflexivity. Qed.
+
+Lemma kframe_put_plain_val : forall s o a v, attr_uniq sch (obj_ent s o) a = false ->
+  kframe sch s (upd_obj s o (fun ob => ob_put_val ob a v)).
+Proof.
+  intros. apply kframe_upd_obj. intros ob G. apply kobj_eq_val. rewrite <- (obj_ent_get s o ob G). exact H.
+Qed.
+
+Lemma Pk_set_op : forall s h a v, Pk sch s -> Pk sch (fst (set_op sch s h a v)).
+Proof.
+  intros s h a v P. unfold set_op. destruct (hget s h) as [o|]; [|exact P].
+  destruct (get_attr sch (obj_ent s o) a) as [at_|] eqn:GA; [|exact P].
+  destruct (is_set_kind (a_kind at_)). exact P.
+  destruct (negb (handles_ok s (arg_handles v))). exact P.
+  destruct (is_del (obj_st s o)) eqn:ND. exact P.
+  destruct (validate s at_ (Some v)) as [nv| |]; try exact P.
+  pose proof (kframe_mark_written sch s o a ND) as F1.
+  destruct (is_ref_kind (a_kind at_)).
+  { cbn [fst]. eapply kframe_Pk; [|exact P]. apply kframe_ref_set_direct; auto. }
+  destruct (negb (a_uniq at_)) eqn:NU.
+  { cbn [fst]. eapply kframe_Pk; [|exact P]. eapply kframe_trans. exact F1. apply kframe_put_plain_val.
+    rewrite (kframe_obj_ent sch s _ o F1). rewrite (attr_uniq_get _ _ _ GA). apply negb_true_iff in NU. exact NU. }
+  pose proof (kframe_Pk sch _ _ F1 P) as P1.
+  destruct (oval_eqb (obj_val s o a) (Some nv)). exact P1.
+  destruct (key_conflict (mark_written s o a) o (obj_ent s o) a nv) eqn:KC.
+  { cbn [fst]. eapply Pk_fields; [reflexivity|reflexivity|reflexivity|exact P]. }
+  cbn [fst]. apply Pk_key_set; auto. rewrite (attr_uniq_get _ _ _ GA). apply negb_false_iff in NU. exact NU.
+Qed.
+
+Lemma Pk_key_set_checked : forall s o e a nv, Pk sch s -> Pk sch (key_set_checked sch s o e a nv).
+Proof.
+  intros. unfold key_set_checked. destruct (negb (attr_uniq sch e a) || key_conflict s o e a nv) eqn:C.
+  apply Pk_dirty_keep. exact H. apply orb_false_iff in C. destruct C as [C1 C2]. apply negb_false_iff in C1.
+  apply Pk_key_set; auto.
+Qed.
+
+Lemma est_same_key_set : forall s o e a nv, est_same s (key_set s o e a nv).
+Proof.
+  intros. unfold key_set. destruct (get_obj s o) as [ob|]; [|apply est_same_refl].
+  destruct (is_del (o_st ob) || negb (Nat.eqb (o_ent ob) e)). apply est_same_refl.
+  destruct (oval_eqb (oval ob a) (Some nv)). apply est_same_refl.
+  eapply est_same_trans; [|apply est_same_upd_obj; intros; auto].
+  apply est_same_objs. destruct (oval ob a) as [ov|]; try destruct (is_vnone ov); destruct (is_vnone nv); reflexivity.
+Qed.
+
+Lemma setmany_apply_ok : forall s o e p,
+  Pk sch s -> is_del (obj_st s o) = false -> obj_ent s o = e ->
+  Pk sch (setmany_apply sch o e s p) /\ is_del (obj_st (setmany_apply sch o e s p) o) = false /\ obj_ent (setmany_apply sch o e s p) o = e.
+Proof.
+  intros s o e p P ND EE. unfold setmany_apply. destruct (attr_uniq sch e (fst p)) eqn:U.
+  - split. apply Pk_key_set_checked; auto.
+    unfold key_set_checked. destruct (negb (attr_uniq sch e (fst p)) || key_conflict s o e (fst p) (snd p)).
+    + split; auto.
+    + destruct (est_same_key_set s o e (fst p) (snd p) o) as [A B]. rewrite A, B. auto.
+  - destruct (attr_is_ref sch e (fst p)).
+    + pose proof (kframe_ref_set_direct sch WF s o (fst p) (snd p) ND) as F. split. eapply kframe_Pk; eauto.
+      rewrite (kframe_is_del sch s _ o F), (kframe_obj_ent sch s _ o F). auto.
+    + assert (F : kframe sch s (upd_obj s o (fun ob => ob_put_val ob (fst p) (Some (snd p))))) by (apply kframe_put_plain_val; rewrite EE; exact U).
+      split. eapply kframe_Pk; eauto. rewrite (kframe_is_del sch s _ o F), (kframe_obj_ent sch s _ o F). auto.
+Qed.
+
+Lemma Pk_setmany_op : forall s h kw, Pk sch s -> Pk sch (fst (setmany_op sch s h kw)).
+Proof.
+  intros s h kw P. unfold setmany_op. destruct (hget s h) as [o|]; [|exact P].
+  set (e := obj_ent s o).
+  destruct (existsb _ kw). exact P. destruct (negb (kw_handles_ok s kw)). exact P.
+  destruct (is_del (obj_st s o)). exact P.
+  destruct (validate_kw sch s e kw) as [cs| |]; try exact P.
+  set (avs := flat_map (fun p => match snd p with CVal v => [(fst p, v)] | CSet _ => [] end) cs).
+  set (cavs := flat_map (fun p => match snd p with CSet l => [(fst p, l)] | CVal _ => [] end) cs).
+  match goal with |- context [match ?r0 with Ok _ _ => _ | Err _ _ => _ end] => set (r := r0) end.
+  assert (P0 : Pk sch (out_state r)).
+  { unfold r. destruct avs. exact P. match goal with |- context [if ?c then _ else _] => destruct c end. apply Pk_load_obj_noflush. exact P. exact P. }
+  destruct r as [s1 u|s1 er]; [|exact P0]. cbn [out_state] in P0.
+  destruct (is_del (obj_st s1 o) || negb (Nat.eqb (obj_ent s1 o) e)) eqn:CHK. cbn [fst]. apply Pk_dirty. discriminate.
+  apply orb_false_iff in CHK. destruct CHK as [ND1 EE1]. apply negb_false_iff in EE1. apply Nat.eqb_eq in EE1.
+  set (s2 := fold_left (fun acc p => mark_written acc o (fst p)) avs s1).
+  assert (F2 : kframe sch s1 s2).
+  { unfold s2. clear -ND1. revert s1 ND1. induction avs as [|p t IH]; intros s1 ND1; simpl. apply kframe_refl.
+    pose proof (kframe_mark_written sch s1 o (fst p) ND1) as F. eapply kframe_trans. exact F. apply IH.
+    rewrite (kframe_is_del sch s1 _ o F). exact ND1. }
+  pose proof (kframe_Pk sch _ _ F2 P0) as P2.
+  assert (ND2 : is_del (obj_st s2 o) = false) by (rewrite (kframe_is_del sch s1 s2 o F2); exact ND1).
+  assert (EE2 : obj_ent s2 o = e) by (rewrite (kframe_obj_ent sch s1 s2 o F2); exact EE1).
+  set (avs' := filter (fun p => negb (oval_eqb (obj_val s2 o (fst p)) (Some (snd p)))) avs).
+  match goal with |- context [setmany_scan o e s2 false ?k] => destruct (setmany_scan o e s2 false k) as [[sio ch] cf] end.
+  match goal with |- context [if ?c then (mark_declined s, RDecline) else _] => destruct c end. exact P.
+  destruct cf. { cbn [fst]. destruct ch. apply Pk_dirty. discriminate. exact P2. }
+  assert (P3 : Pk sch (fold_left (setmany_apply sch o e) avs' s2)).
+  { generalize avs'. intro l. generalize P2 ND2 EE2. generalize s2. clear -WF.
+    induction l as [|p t IH]; intros s0 Q2 D2 E2; simpl. exact Q2.
+    destruct (setmany_apply_ok s0 o e p Q2 D2 E2) as (A & B & C). apply IH; auto. }
+  pose proof (Pk_fold_out sch _ (fun acc p => coll_assign sch acc o (fst p) (snd p)) cavs _ (fun s0 x P0 => Pk_coll_assign sch WF s0 o (fst x) (snd x) P0) P3) as P4.
+  destruct (fold_out (fun acc p => coll_assign sch acc o (fst p) (snd p)) (fold_left (setmany_apply sch o e) avs' s2) cavs) as [s4 u4|s4 er].
+  - exact P4.
+  - cbn [fst]. destruct (ch || Nat.ltb 1 (length cavs)). apply Pk_dirty. discriminate. exact P2.
+Qed.
+End WithSchema8.
+
+(* ---------------------------------------------------------------- the remaining operations, step, run *)
+
+Section WithSchema9.
+Variable sch : schema.
+Hypothesis WF : wf_schema sch = true.
+
+Lemma Pk_lift_unit : forall r, Pk sch (out_state r) -> Pk sch (fst (lift_unit r)).
+Proof. intros [s u|s er] H; exact H. Qed.
+
+Lemma Pk_delete_op : forall s h, Pk sch s -> Pk sch (fst (delete_op sch s h)).
+Proof. intros. unfold delete_op. destruct (hget s h); auto. apply Pk_lift_unit. apply Pk_delete_obj; auto. Qed.
+
+Lemma Pk_coll_op : forall s k h a hs, Pk sch s -> Pk sch (fst (coll_op sch s k h a hs)).
+Proof.
+  intros s k h a hs P. unfold coll_op. destruct (hget s h) as [o|]; [|exact P].
+  destruct (get_attr sch (obj_ent s o) a) as [at_|]; [|exact P].
+  destruct (a_kind at_); try exact P.
+  destruct (negb (handles_ok s hs)). exact P. destruct (is_del (obj_st s o)). exact P.
+  destruct (validate_set s tgt (Some (AObjs hs))) as [items| |]; try exact P.
+  apply Pk_lift_unit. destruct k. apply Pk_coll_add; auto. apply Pk_coll_remove; auto. apply Pk_coll_assign; auto.
+Qed.
+
+Lemma Pk_read_op : forall s h a, Pk sch s -> Pk sch (fst (read_op sch s h a)).
+Proof.
+  intros s h a P. unfold read_op. destruct (hget s h) as [o|]; [|exact P].
+  destruct (get_attr sch (obj_ent s o) a) as [at_|]; [|exact P].
+  destruct (a_kind at_) eqn:K.
+  1,2,3: (destruct (is_gone (obj_st s o)); [exact P|];
+    assert (FIN : forall s1, Pk sch s1 -> Pk sch (fst (match obj_val s1 o a with
+            | Some (VRef x) => let '(s2, hx) := handle_of s1 x in (s2, RObj hx)
+            | Some VNone => if is_ref_kind (a_kind at_) then (s1, RNoneObj) else (s1, RVal VNone)
+            | Some v => (s1, RVal v)
+            | None => (s1, RErr EKeyError) end)));
+    [ intros s1 P1; destruct (obj_val s1 o a) as [[| | |x]|]; try exact P1;
+      try (destruct (is_ref_kind (a_kind at_)); exact P1);
+      try (pose proof (Pk_handle_of sch s1 x P1) as Q; destruct (handle_of s1 x); exact Q) |];
+    rewrite K in FIN;
+    destruct (obj_val s o a) as [v0|] eqn:OV;
+    [ destruct v0 as [| | |x]; try exact P;
+      try (match goal with |- context [if ?c then _ else _] => destruct c end; exact P);
+      try (pose proof (Pk_handle_of sch s x P) as Q; destruct (handle_of s x); exact Q) |];
+    pose proof (Pk_auto_flush sch s P) as P1; destruct (auto_flush sch s) as [s1 u|s1 er]; [|exact P1];
+    pose proof (Pk_load_obj_noflush sch s1 o P1) as P2; destruct (load_obj_noflush sch s1 o) as [s2 u2|s2 er]; [|exact P2];
+    apply FIN; exact P2).
+  destruct (is_del (obj_st s o)). exact P.
+  destruct (has_sd s o a && coll_full s o a).
+  { destruct (copy_assert_fails s o a). exact P. apply Pk_objs_res; auto. }
+  pose proof (Pk_auto_flush sch s P) as P1. destruct (auto_flush sch s) as [s1 u|s1 er]; [|exact P1].
+  pose proof (Pk_coll_load_noflush sch s1 o a P1) as P2. destruct (coll_load_noflush sch s1 o a) as [s2 u2|s2 er]; [|exact P2].
+  destruct (copy_assert_fails s2 o a). exact P2. apply Pk_objs_res; auto.
+Qed.
+End WithSchema9.
